@@ -58,6 +58,10 @@ def run(ctx: Ctx) -> Result:
         else:
             for w in ("allow_only_kwargs", "allow_args"):
                 cases.append({"fn": "call", "kind": w, "wrapper": w, "sig": g["sig"], "call": g["call"]})
+                # the same call on a function whose parameters all declare a default: a missing argument is still rejected,
+                # a supplied one is still bound to the parameter of its name
+                cases.append({"fn": "call", "kind": w + " (parameters with defaults)", "wrapper": w, "sig": g["sig"], "call": g["call"],
+                              "defaults": True})
             # the argument-normalising helpers are specified for complete, non-overlapping calls only
             names = [p["name"] for p in g["sig"]]
             kw = g["call"]["kw"]
